@@ -29,7 +29,7 @@ EXACT_OPS = {'neg', 'pos', 'add', 'sub', 'addi', 'subi', 'rsubi', 'muli', 'lshif
 CMP_OPS = {'lt': lambda a, b: a < b, 'le': lambda a, b: a <= b, 'eq': lambda a, b: a == b,
            'ne': lambda a, b: a != b, 'ge': lambda a, b: a >= b, 'gt': lambda a, b: a > b}
 TRUNC_OPS = {'mul', 'sq', 'mulf', 'inprod', 'schur', 'smul', 'matprod', 'prod', 'pow', 'trunc'}
-ORACLE_ONLY = {'div', 'divf', 'rdivf', 'sin', 'cos', 'abs', 'min', 'max', 'sgn', 'inputl'} | set(CMP_OPS)
+ORACLE_ONLY = {'div', 'divf', 'rdivf', 'sin', 'cos', 'abs', 'min', 'max', 'sgn', 'inputl', 'modf'} | set(CMP_OPS)
 
 
 # ---------------------------------------------------------------------------------------------
@@ -243,6 +243,8 @@ def real_op(mpc, secfxp, nodes, ins, force_false):
         return [getattr(operator, op)(A[0], A[1])]
     if op == 'sgn':
         return [mpc.sgn(A[0])]
+    if op == 'modf':                    # remainder modulo a PUBLIC (possibly fractional) modulus
+        return [A[0] % unhex(ex)]
     if op == 'abs':
         return [abs(A[0])]
     if op == 'min':
@@ -554,6 +556,11 @@ def ref_step(ins, iref, f, raw_out=None):
         if abs(a.R) * (1 << f) <= a.E and a.E:
             return taint()
         return [Ref(Fr((a.R > 0) - (a.R < 0)))]
+    if op == 'modf':
+        c = Fr(unhex(ex))
+        if a.E or c <= 0:
+            return taint()              # only exact dividends: the remainder is discontinuous
+        return [Ref(a.R - c * (a.R // c))]
     if op == 'abs':
         if abs(a.R) * (1 << f) <= a.E and a.E:
             return taint()
